@@ -19,6 +19,9 @@ PROPS = {
         "modules": ["C10"],
         "streams": [{"name": "exec", "quick": 2500, "thorough": 60000}, {"name": "codec", "quick": 200, "thorough": 2000}],
         "projection": "all",
+        # the laws proved in Props/C10.lean about the model ARE the specification: an input on which the real
+        # executor and the model disagree is an input on which the property fails
+        "model_is_spec": True,
         "oracles": ["exec_entrypoints", "steps_le_weight"],
         "assumptions": ["the MelVM specification used as oracle is the list of laws stated in Props/C10.lean (the opcode reference text is not available offline)",
                         "catvec ropes are modelled as lists; cases in which a value grows beyond 2^16 elements are discarded by the generator"],
@@ -61,6 +64,14 @@ PROPS = {
         "streams": [{"name": "feemult", "quick": 300, "thorough": 3000}, {"name": "seal", "quick": 25, "thorough": 300}],
         "projection": "feemult",
         "oracles": ["feemult"],
+    },
+    "C01": {
+        "modules": ["C01", "C01Seal"],
+        "streams": [{"name": "apply", "quick": 50, "thorough": 800}, {"name": "seal", "quick": 50, "thorough": 800}, {"name": "chain", "quick": 20, "thorough": 300}],
+        "projection": "supply",
+        "oracles": ["conservation"],
+        "assumptions": ["C01_settlement assumes the block's coins are as declared (Faithful — what C02_exact establishes), unique keys/hashes and a per-denomination coin total below 2^128",
+                        "the bounded peg adjustment is mirrored, not bounded by a theorem: proved is that pegging touches nothing but the MEL/SYM pool"],
     },
     "C02": {
         "modules": ["C02"],
